@@ -744,6 +744,23 @@ func (x *Exec) specCall(e *ast.CallExpr, sc *SpecScope, st *State) *Value {
 			fn = "bytesval8"
 		}
 		return &Value{Tm: App(fn, UnS("Bytes"), x.sliceContents(st, v.Tm, bs, types.Typ[types.Uint8]), SOff(v.Tm), SLen(v.Tm))}
+	case "asptr":
+		// asptr(e, T): view an interface/reference value as *T (T a struct type of the contract's package)
+		v := arg(0)
+		tid, ok := e.Args[1].(*ast.Ident)
+		if !ok {
+			panic(engErr("asptr(e, T): T must be a type name"))
+		}
+		var tn types.Object
+		for s := sc; s != nil && tn == nil; s = s.parent {
+			if s.pkg != nil {
+				tn = s.pkg.Scope().Lookup(tid.Name)
+			}
+		}
+		if tn == nil {
+			panic(engErr("asptr: unknown type %s", tid.Name))
+		}
+		return &Value{T: types.NewPointer(tn.Type()), P: &Pointer{Base: v.term()}}
 	case "byteat":
 		// byteat(slice, i): element i of a byte slice given without Go type (e.g. a ghost Slice)
 		sv, iv := arg(0), arg(1)
@@ -896,6 +913,14 @@ func (x *Exec) specLocs(src string, sc *SpecScope, st *State, c *Contract) []*sp
 				return []*specLoc{{mapT: mt, ref: v.Tm}}
 			}
 		}
+	}
+	if se, ok := e.(*ast.StarExpr); ok {
+		pv := x.evalSpec(se.X, sc, st)
+		if pv.P == nil {
+			panic(engErr("%s: modifies designator %q dereferences a non-pointer", c.Key, src))
+		}
+		et, _ := derefType(pv.T)
+		return []*specLoc{{ptr: pv.P, t: et}}
 	}
 	v := x.evalSpec(e, sc, st)
 	if v.P == nil {
